@@ -1117,8 +1117,13 @@ class Summaries:
             init = felem(f, 0 if name == "sum" else 1)
             fo = mk("fold", a[0], mk("sym", "item"), (mk("sym", "acc"),), (init,), ((r_add if name == "sum" else r_mul)(mk("sym", "acc"), mk("sym", "item")),))
             return mk("proj", fo, 0)
+        # the sign convention of Fq (justified by C01's SIGN rule on the resolved methods, whichever of them the impl defines)
         if name in ("is_nonnegative",) and "sign" in key:
             return not_(sign(a[0]))
+        if name == "is_negative" and "sign::Sign" in key:
+            return sign(a[0])
+        if name == "abs" and "sign::Sign" in key:
+            return ite(sign(a[0]), r_neg(a[0]) if "r_neg" in globals() else mk("neg", a[0]), a[0])
         if name in ("cmp", "partial_cmp"):
             v = mk("int_cmp", mk("canon_int", a[0]), mk("canon_int", a[1]))
             return v if name == "cmp" else variant("Some", v)
